@@ -23,17 +23,17 @@ func c01(c *core.Check) {
 
 	c01Exhaustive(c)
 	c01Recursion(c)
-	r8 := c.Rule("R8", "the SVG path interpreter indexes its argument list only behind hasSetsOrMore(sz, …), which returns true only for a list of at least sz numbers made of whole groups of sz (an index error while drawing is a crash of the render)", 3)
+	r8 := c.Rule("R8", "the SVG path interpreter indexes its argument list only behind hasSetsOrMore(sz, …), which returns true only for a list of at least sz numbers made of whole groups of sz (an index error while drawing is a crash of the render)", 1)
 	groupGuardRule(c, r8)
 	r9 := c.Rule("R9", "the running quote depth, which indexes the quotes list, never becomes negative: every store into quoteDepth[0] is clamped at 0, adds a positive constant, or subtracts under a test that the depth is large enough", 2)
 	counterCellRule(c, r9)
-	r10 := c.Rule("R10", "sizes taken from the document are bounded before they size an allocation: colspan and rowspan are read within the limits of the HTML specification (the table grid and the collapsed-border grid are allocated with them), and every strings.Repeat of css/counters and text (pad symbols, symbolic and additive repetitions, the spaces measured for tab-size) has its count clamped by, or tested against, a constant", 9)
+	r10 := c.Rule("R10", "sizes taken from the document are bounded before they size an allocation: colspan and rowspan are read within the limits of the HTML specification (the table grid and the collapsed-border grid are allocated with them), and every strings.Repeat of css/counters and text (pad symbols, symbolic and additive repetitions, the spaces measured for tab-size) has its count clamped by, or tested against, a constant", 8)
 	spanBounds(c, r10)
 	padBoundRule(c, r10)
 	r11 := c.Rule("R11", "the last resort of counter rendering ends the recursion: the automatic range of a counter style, which is the range of decimal, is unbounded (its constant bounds are the smallest and the largest integer), so decimal never falls back to itself", 2)
 	autoRangeRule(c, r11)
 	c01Fanout(c)
-	r13 := c.Rule("R13", "the recursive descent of the CSS tokenizer is bounded: every recursive call of consumeValueList goes through a guard that tests a depth counter against a constant, increments it before the call and decrements it after", 5)
+	r13 := c.Rule("R13", "the recursive descent of the CSS tokenizer is bounded: every recursive call of consumeValueList goes through a guard that tests a depth counter against a constant, increments it before the call and decrements it after", 3)
 	depthGuardRule(c, r13)
 	r14 := c.Rule("R14", "the depth of the SVG tree is bounded where the tree is built: the recursive builder of newSVGContext passes its depth parameter on incremented and recurses only below a constant depth (every other recursive function of the package walks the tree it returns)", 1)
 	depthParamRule(c, r14)
@@ -59,7 +59,7 @@ func c01(c *core.Check) {
 	c01NestedSelectorBound(c)
 
 	p := c.Prog
-	r4 := c.Rule("R4", "no nil dereference the code itself anticipates: every method call through ComputedStyle.parentStyle (nil on the root element) is dominated by a nil / root test; no comma-ok type assertion to a pointer or interface discards its ok result and then dereferences the value without a nil test (module-wide)", 6)
+	r4 := c.Rule("R4", "no nil dereference the code itself anticipates: every method call through ComputedStyle.parentStyle (nil on the root element) is dominated by a nil / root test; no comma-ok type assertion to a pointer or interface discards its ok result and then dereferences the value without a nil test (module-wide)", 5)
 	parentNilGuard(c, r4)
 	nFns, nSites := 0, 0
 	for _, fn := range p.ModFuncs {
@@ -115,7 +115,7 @@ func c01(c *core.Check) {
 		r6.Skip(fmt.Sprintf("%s | %d explicit panic(s)", k, n), posOf[k], "internal invariant assertion(s); reachability not decided")
 	}
 
-	r5 := c.Rule("R5", "bounded loops: the re-pagination loop of layout.layoutDocument (the loop that calls makeAllPages) is a counted loop: its counter is incremented by a positive constant on every back edge and compared with a bound defined outside the loop; every loop whose only progress is an integer division (`for v != 0 { v /= d }`) has a divisor of at least 2 (at least 1 when the dividend is decremented first)", 3)
+	r5 := c.Rule("R5", "bounded loops: the re-pagination loop of layout.layoutDocument (the loop that calls makeAllPages) is a counted loop: its counter is incremented by a positive constant on every back edge and compared with a bound defined outside the loop; every loop whose only progress is an integer division (`for v != 0 { v /= d }`) has a divisor of at least 2 (at least 1 when the dividend is decremented first)", 1)
 	if ld := p.Fn("html/layout", "layoutDocument"); ld == nil {
 		r5.Anchor("html/layout.layoutDocument")
 	} else {
@@ -273,7 +273,7 @@ var c01GuardNotes = map[string]c01Note{
 
 func c01Exhaustive(c *core.Check) {
 	p := c.Prog
-	r1 := c.Rule("R1", "every explicit panic that is the default of a switch / if-chain over a CSS keyword, an enum constant or a dynamic type is unreachable: the set of values the producers can yield (what the property's validators return, its initial value, what its computer returns; every value stored in the struct field read; every constant of the enum type; every module type implementing the interface) is included in the set of handled cases", 14)
+	r1 := c.Rule("R1", "every explicit panic that is the default of a switch / if-chain over a CSS keyword, an enum constant or a dynamic type is unreachable: the set of values the producers can yield (what the property's validators return, its initial value, what its computer returns; every value stored in the struct field read; every constant of the enum type; every module type implementing the interface) is included in the set of handled cases", 12)
 	ss := core.NewStrSets(p)
 	pi := newPropIndex(p, ss)
 	if pi.err != "" {
